@@ -22,6 +22,21 @@ Definition occurs_at (ic : bool) (needle text : str) (p : nat) : Prop :=
 Definition occurs (ic : bool) (needle text : str) (p : Z) : Prop :=
   0 <= p /\ occurs_at ic needle text (Z.to_nat p).
 
+(* [p] is the first occurrence at or after [lo] *)
+Definition first_from (ic : bool) (needle text : str) (lo p : nat) : Prop :=
+  (lo <= p)%nat /\ occurs_at ic needle text p /\
+  forall o, (lo <= o < p)%nat -> ~ occurs_at ic needle text o.
+
+(* [p] is the (k+1)-th match of the leftmost NON-OVERLAPPING scan started at
+   [lo] (what re.finditer enumerates): after a match at p0 the scan resumes at
+   p0 + max 1 |needle| *)
+Fixpoint nth_match (ic : bool) (needle text : str) (lo k p : nat) {struct k} : Prop :=
+  match k with
+  | O => first_from ic needle text lo p
+  | S k' => exists p0, first_from ic needle text lo p0 /\
+                       nth_match ic needle text (p0 + Nat.max 1 (length needle)) k' p
+  end.
+
 (* no occurrence anywhere in the entry *)
 Definition absent (ic : bool) (needle text : str) : Prop :=
   forall q, ~ occurs ic needle text q.
@@ -41,9 +56,12 @@ Definition Inv (b : sbuf) : Prop :=
 (* where a found position puts the buffer *)
 Definition moved (b : sbuf) (w c : Z) : sbuf := mksbuf (wl b) w c.
 
-(* the keys that only edit the search field *)
+(* the keys that only edit the search field or move the cursor inside it *)
 Definition typing_key (k : key) : Prop :=
-  match k with KChar _ | KSlash | KQuestion | KBackspace => True | _ => False end.
+  match k with
+  | KChar _ | KSlash | KQuestion | KBackspace | KDelete | KLeft | KRight | KHome | KEnd => True
+  | _ => False
+  end.
 
 Fixpoint keys_run (s : sess) (ks : list key) : option sess :=
   match ks with
